@@ -38,7 +38,7 @@ def _run_one_inner(idx):
     outdir = os.path.join(OPTS["out"], f"t{idx}")
     os.makedirs(outdir, exist_ok=True)
     t0 = time.time()
-    rec = {"task": task.name, "func": task.func, "config": task.config, "props": list(task.props), "bounded": getattr(task, "bounded", None), "results": [], "undecided": None,
+    rec = {"task": task.name, "func": task.func, "config": task.config, "props": list(task.props), "stratum": getattr(task, "stratum", None), "bounded": getattr(task, "bounded", None), "results": [], "undecided": None,
            "paths": 0, "dead_paths": 0, "cover": [], "error": None}
     try:
         ctxs, undecided, oracle = vc.explore(task, make_interp, outdir, max_paths=OPTS.get("max_paths", 400))
